@@ -305,6 +305,9 @@ def solve_script(args):
         for g in pending:
             sub = cone(qf_pc, g["goal"], consts, 2)
             neg = f"(not {g['goal']})"
+            if uses_strings(sub + [neg]):
+                still.append(g)      # z3's sequence solver is the weak one: leave strings to the race below
+                continue
             toks = set(_TOK.findall(" ".join(sub) + " " + neg))
             header = [f"(declare-sort {u} 0)" for u in s["usorts"]] + list(s["tsorts"]) + \
                 [f"(declare-fun {n} ({' '.join(a)}) {r})" for n, a, r in s["decls"] if n in toks]
@@ -486,8 +489,10 @@ def run(prop, tier, seed, timeout_s, args, t_start):
     pool = multiprocessing.Pool(args.jobs)
     early = False
     try:
+        t_a = time.time()
         jobs = [j for js in pool.map(split_worker, jobs, chunksize=1) for j in js]
         gens = merge_gens(pool.map(gen_worker, jobs, chunksize=1))
+        t_gen = time.time() - t_a
         crashed = [g for g in gens if not g["ok"]]
         if crashed:
             for g in crashed:
@@ -501,10 +506,12 @@ def run(prop, tier, seed, timeout_s, args, t_start):
         work = []
         for s in all_scripts:
             gl = s["goals"]
-            for k in range(0, len(gl), 40):
+            step = 3 if uses_strings(s["pc"][-6:] + [x["goal"] for x in gl[:3]]) else 40
+            for k in range(0, len(gl), step):
                 s2 = dict(s)
-                s2["goals"] = [dict(x) for x in gl[k:k + 40]]
+                s2["goals"] = [dict(x) for x in gl[k:k + step]]
                 work.append((s2, timeout_s, tier == "thorough"))
+        t_b = time.time()
         # deterministic shuffle: failing paths tend to sit together in DFS order
         import random
         random.Random(seed).shuffle(work)
@@ -518,6 +525,8 @@ def run(prop, tier, seed, timeout_s, args, t_start):
             if ncand >= 8 and len(solved) < len(work) and os.environ.get("VERIF_NO_EARLY") != "1":
                 early = True     # enough refuted obligations to triage: fail fast
                 break
+        t_solve = time.time() - t_b
+        t_c = time.time()
         # undecided paths: ignore if infeasible
         und_jobs = []
         for g in gens:
@@ -530,6 +539,11 @@ def run(prop, tier, seed, timeout_s, args, t_start):
             for e in g["exit_scripts"]:
                 exit_jobs.append((g, e))
         exit_res = pool.map(feas_worker, [(e, timeout_s) for _, e in exit_jobs], chunksize=1) if exit_jobs and not early else []
+        t_feas = time.time() - t_c
+        if os.environ.get("VERIF_TIMING"):
+            for g_ in sorted(gens, key=lambda x: -x.get("gen_s", 0))[:4]:
+                print(f"  gen {g_['contract']} [{g_['cfg']}] {g_.get('gen_s', 0):.1f}s paths={g_['npaths']}")
+            print(f"timing: gen {t_gen:.1f}s (max single {max(g.get('gen_s', 0) for g in gens if g['ok']):.1f}s) solve {t_solve:.1f}s feasibility {t_feas:.1f}s")
     finally:
         if early:
             pool.terminate()
@@ -647,23 +661,11 @@ def run(prop, tier, seed, timeout_s, args, t_start):
             # no failing input found: a genuine refutation needs a model of the *full* path condition
             finals = [r for r in recs if r["result"] == "refuted"]
             if not finals:
-                deep = [(dict(r["_script"], goals=[dict(r["_goal"])]), timeout_s, "deep") for r in recs[:8]]
-                for r, sr in zip(recs[:8], [solve_script(a) for a in deep]):
-                    rr = list(sr["results"].values())[0]
-                    if rr["res"] == "unsat":
-                        r["result"] = "proved"
-                        r["backend"] = rr["backend"]
-                    elif rr["res"] == "sat":
-                        r["result"] = "refuted"
-                        r["model"] = smt.parse_model(rr["model"], [smt.T(so, v) for v, so in r["_script"]["values"]])
-                        finals.append(r)
-                    else:
-                        r["result"] = "unknown"
-                        r["raw"] = "candidate counter-model did not replay; full query undecided"
-                for r in recs[8:]:
+                # candidates only: leave them to the witness search below (and, failing that, undecided)
+                for r in recs:
                     if r["result"] == "cand":
                         r["result"] = "unknown"
-                        r["raw"] = "candidate counter-model not replayed (same clause as another undecided obligation)"
+                        r["raw"] = "only a candidate counter-model (of a subset of the assumptions) exists and it did not replay"
             if finals:
                 if internal:
                     for r in recs:
@@ -682,6 +684,27 @@ def run(prop, tier, seed, timeout_s, args, t_start):
         for r in recs:
             r.pop("_script", None)
             r.pop("_goal", None)
+    # obligations the solvers left undecided: search for a concrete failing input (a found one is a
+    # real violation, replayed on the real code; finding none leaves the obligation undecided)
+    ugroups = {}
+    for rec in report["obligations"]:
+        if rec["result"] == "unknown" and rec["kind"] in TOP_KINDS:
+            ugroups.setdefault((rec["contract"], strip_lines(rec["name"])), []).append(rec)
+    sjobs = []
+    for (cname, gname), recs in ugroups.items():
+        c = next(x for x in reg.all if x.name == cname)
+        if c.replay is None or not (gname.startswith("post#") or gname.startswith("xpost:unexpected")):
+            continue
+        sjobs.append((c, recs))
+    if sjobs:
+        from concurrent.futures import ThreadPoolExecutor
+        with ThreadPoolExecutor(max_workers=min(12, len(sjobs))) as ex:
+            founds = list(ex.map(lambda cr: do_search(prop, cr[0], cr[1][0], tier, seed), sjobs[:48]))
+        for (c, recs), found in zip(sjobs, founds):
+            if found is not None:
+                for r in recs:
+                    r["result"] = "refuted"
+                viol_lines.append((found, True, recs[0]))
     for rec in report["obligations"]:
         rec.pop("_script", None)
         rec.pop("_goal", None)
@@ -835,6 +858,27 @@ def do_replay(prop, c, rec, s, g, run=True):
         data["note"] = "no-failing-input-found: the obligation is refuted by the solver but the counter-model " \
                        "did not reproduce on the real code (or no witness builder exists for this contract)"
     return write_replay(prop, data), reproduced, data["observed"]
+
+
+def do_search(prop, c, rec, tier, seed):
+    meta = {"cfg": rec["cfg"], "obligation": rec["name"], "prop": prop, "contract": rec["contract"]}
+    budget = 300 if tier == "quick" else 5000
+    try:
+        cmd = [PYTHON, os.path.join(HERE, "replay", "run.py"), "--search", c.replay, json.dumps(meta), str(budget), str(seed)]
+        env = dict(os.environ, PYTHONPATH=os.environ.get("VERIF_REPO", "/repo"))
+        p = subprocess.run(cmd, capture_output=True, text=True, timeout=300 if tier == "quick" else 1800, env=env, cwd=HERE)
+        out = p.stdout.strip().splitlines()
+        ob = json.loads(out[-1]) if out else {}
+    except Exception as e:
+        ob = {"reproduced": False, "observed": f"search harness error: {e}"}
+    if not ob.get("reproduced"):
+        return None
+    data = {"property": prop, "obligation": f"{rec['contract']} [{rec['cfg']}] :: {rec['name']}", "kind": rec["kind"],
+            "where": rec["where"], "model": ob.get("model"), "solver": "undecided by cvc5/z3 within the budget; failing "
+            "input found by witness search over the contract's input grammar", "reproduced": True,
+            "observed": ob.get("observed"), "inputs": ob.get("inputs"), "tried": ob.get("tried"),
+            "rerun": f"cd {HERE} && ./check {prop} --tier quick"}
+    return write_replay(prop, data)
 
 
 def _jsonable(v):
